@@ -185,3 +185,62 @@ func finalFixedLiterals(n, m int) []byte {
 }
 
 func hexOf(b []byte) string { return hex.EncodeToString(b) }
+
+// manyEmptyBlocks: k blocks that produce no output (sync markers, empty fixed blocks, empty
+// dynamic blocks in rotation), then a few literals: a valid stream may go on for as long as
+// it likes without output.
+func manyEmptyBlocks(k int) ([]byte, []byte) {
+	var w synth.BitWriter
+	lit := make([]uint8, 286)
+	lit['x'], lit[256] = 1, 1
+	for i := 0; i < k; i++ {
+		switch i % 5 {
+		case 1:
+			synth.Fixed(&w, false, nil)
+		case 3:
+			synth.Dynamic(&w, false, lit, make([]uint8, 30), nil, synth.DynOptions{UseRepeat: true})
+		default:
+			synth.SyncMarker(&w)
+		}
+	}
+	synth.Fixed(&w, true, []synth.Tok{synth.Lit('h'), synth.Lit('e'), synth.Lit('l'), synth.Lit('l'), synth.Lit('o')})
+	return w.Bytes(), []byte("hello")
+}
+
+// fullDistTableStream: a dynamic block whose distance code is one of the few complete codes
+// that fill the decoder's long-code table for distances to its last entry (3 codes of 2 bits,
+// one each of 3..7 bits, 13 of 11, 5 of 12, one of 13, one of 14, two of 15 bits), with
+// matches through every one of its 30 codes.
+func fullDistTableStream(rng *rand.Rand) ([]byte, []byte, error) {
+	lens := []uint8{2, 2, 2, 3, 4, 5, 6, 7, 11, 11, 11, 11, 11, 11, 11, 11, 11, 11, 11, 11, 11, 12, 12, 12, 12, 12, 13, 14, 15, 15}
+	rng.Shuffle(len(lens), func(i, j int) { lens[i], lens[j] = lens[j], lens[i] })
+	toks := []synth.Tok{}
+	out := 0
+	for i := 0; i < 40000; i++ {
+		toks = append(toks, synth.Lit(byte(rng.Intn(256))))
+		out++
+	}
+	bases := []int{1, 2, 3, 4, 5, 7, 9, 13, 17, 25, 33, 49, 65, 97, 129, 193, 257, 385, 513, 769, 1025, 1537, 2049, 3073, 4097, 6145, 8193, 12289, 16385, 24577}
+	for rep := 0; rep < 3; rep++ {
+		for s := 0; s < 30; s++ {
+			toks = append(toks, synth.Match(3+rng.Intn(20), bases[s]+rng.Intn(maxInt(1, bases[s]/4))))
+			toks = append(toks, synth.Lit(byte(rng.Intn(256))))
+		}
+	}
+	lf := make([]int, 286)
+	for _, t := range toks {
+		if t.Lit >= 0 {
+			lf[t.Lit]++
+		} else {
+			ls, _, _ := synth.LenSym(t.Len)
+			lf[ls]++
+		}
+	}
+	lf[256]++
+	var w synth.BitWriter
+	if err := synth.Dynamic(&w, false, synth.LensFromFreq(lf, 15), lens, toks, synth.DynOptions{UseRepeat: true}); err != nil {
+		return nil, nil, err
+	}
+	synth.Stored(&w, true, []byte("end"))
+	return w.Bytes(), append(synth.Expand(nil, toks), "end"...), nil
+}
